@@ -84,7 +84,8 @@ Theorem stock_of_spec procs dims sd so :
   stock_of true procs dims sd = Ok so ->
   so_name so = sd_name sd /\ so_process so = sd_process sd /\ so_time so = sd_time sd
   /\ so_class so = sd_class sd /\ so_lifetime so = sd_lifetime sd
-  /\ (sd_class sd = 2 -> so_solver so = Some (sd_solver sd))
+  /\ (has_solver (sd_class sd) = true -> so_solver so = Some (sd_solver sd))
+  /\ (has_solver (sd_class sd) = false -> so_solver so = None)
   /\ get_subset dims (map KLetter (sd_dims sd)) = Ok (so_dims so)
   /\ hd 0 (letters (so_dims so)) = sd_time sd.
 Proof.
@@ -94,7 +95,8 @@ Proof.
   destruct (letters ds) as [|l0 r] eqn:El; [discriminate|].
   destruct (Nat.eqb_spec l0 (sd_time sd)); [|discriminate].
   intros H; injection H as <-. simpl. rewrite El. simpl. repeat split; auto.
-  intros Hc. rewrite Hc. reflexivity.
+  - intros Hc. rewrite Hc. reflexivity.
+  - intros Hc. rewrite Hc. reflexivity.
 Qed.
 
 Theorem stock_refuses_time_not_first procs dims sd ds l0 r fwd :
